@@ -249,7 +249,9 @@ def fuzz(chk, seed, runs_per_job, jobs):
             fh.write("S cfg%d fuzz-%s\n%s" % (ci, name, config_text(ci)))
     env = vc.flavour_env("fuzz", {"HOME": os.path.join(work, "home"), "ARGH_FUZZ_CONFIGS": os.path.join(work, "configs.txt")})
     os.makedirs(os.path.join(work, "home"), exist_ok=True)
-    cmd = [exe, "-seed=%d" % seed, "-runs=%d" % runs_per_job, "-max_len=256", "-jobs=%d" % jobs, "-workers=%d" % jobs,
+    # fork mode: the jobs go on after a crash / timeout / oom (artifacts are kept and triaged below); -runs is the total
+    cmd = [exe, "-seed=%d" % seed, "-runs=%d" % (runs_per_job * jobs), "-max_len=256", "-fork=%d" % jobs, "-ignore_crashes=1",
+           "-ignore_ooms=1", "-ignore_timeouts=1",
            "-dict=" + os.path.join(work, "dict"), "-artifact_prefix=" + os.path.join(work, "crash-"), "-print_final_stats=1",
            "-timeout=20", "-malloc_limit_mb=1024", "-rss_limit_mb=6000", os.path.join(work, "corpus")]
     p = subprocess.run(cmd, cwd=work, env=env, stdout=subprocess.PIPE, stderr=subprocess.STDOUT, text=True, errors="replace")
@@ -257,19 +259,17 @@ def fuzz(chk, seed, runs_per_job, jobs):
     cov = 0
     import glob
     import re
-    for lf in glob.glob(os.path.join(work, "fuzz-*.log")):
-        txt = open(lf, errors="replace").read()
-        m = re.findall(r"stat::number_of_executed_units:\s*(\d+)", txt)
-        if m:
-            execs += int(m[-1])
-        m = re.findall(r"cov: (\d+)", txt)
-        if m:
-            cov = max(cov, int(m[-1]))
+    m = re.findall(r"#(\d+): cov: (\d+) ft: (\d+) corp: (\d+) exec/s (\d+) oom/timeout/crash: (\d+)/(\d+)/(\d+)", p.stdout)
+    if m:
+        execs, cov = int(m[-1][0]), int(m[-1][1])
+        chk.count("fuzz.corpus", int(m[-1][3]))
+        chk.count("fuzz.oom_timeout_crash_events", int(m[-1][5]) + int(m[-1][6]) + int(m[-1][7]))
     chk.count("fuzz.executions", execs)
     chk.count("fuzz.edge_coverage", cov)
     chk.count("fuzz.jobs", jobs)
-    arts = sorted(glob.glob(os.path.join(work, "crash-*")) + glob.glob(os.path.join(work, "crash-timeout-*")))
-    for a in arts[:20]:
+    arts = sorted(set(glob.glob(os.path.join(work, "crash-*"))))
+    chk.count("fuzz.artifacts", len(arts))
+    for a in arts[:40]:
         data = open(a, "rb").read()
         # re-run the artifact alone to get the report (child reports are lost with -jobs)
         # a libFuzzer timeout (20 s wall clock in one of 16 busy jobs) is no verdict: the input is re-run alone with a generous
@@ -307,7 +307,7 @@ def fuzz(chk, seed, runs_per_job, jobs):
 def finalize(chk):
     if chk.tier == "thorough" and not os.environ.get("VERIF_NO_FUZZ"):
         try:
-            fuzz(chk, chk.seed, int(os.environ.get("VERIF_FUZZ_RUNS") or 1500000), vc.NCPU)
+            fuzz(chk, chk.seed, int(os.environ.get("VERIF_FUZZ_RUNS") or 800000), vc.NCPU)
         except vc.HarnessError as e:
             chk.infra.append(str(e))
 
